@@ -332,7 +332,7 @@ def _explore(env, file_hint, name, sig, inline, pure, enums, models, args, loop_
     mdl = dict(COMMON_MODELS)
     mdl.update(models or {})
     ex = mirsmt.Executor(env.mir, ctx, inline=inline or {}, models=mdl, enums=enums or {}, pure=pure or [],
-                         loop_bound=loop_bound)
+                         loop_bound=loop_bound, max_paths=30000)
     a = args(ctx, f) if args else [ctx.sym("p%d" % i if not n.startswith("_") else n, t) for i, (n, t) in enumerate(f.params)]
     res = ex.run(f, a)
     return ctx, f, a, res
@@ -558,14 +558,14 @@ VIS_ASSUME = ("snapshot fields relate to the world state at snapshot time as Tra
               "sets); no transaction is mid-commit at that instant (see C04.snapshot_sets)")
 
 
-@obligation(id="C04.committed_before[xmax=Some]", funcs=VIS_FUNCS, bounds="all u64 ids, any snapshot with xmax = Some(m)",
+@obligation(id="C04.committed_before[xmax=Some]", also="C18", funcs=VIS_FUNCS, bounds="all u64 ids, any snapshot with xmax = Some(m)",
             assume=VIS_ASSUME, **{"assert": "committed_before_matches_world"})
 def c04_cb_some(env, ob):
     return run_visibility(env, ob, "is_committed_before_snapshot", COORD,
                           lambda W: conj([W["some"], f"(not (= {W['t']} {W['xid']}))"]), spec_committed_before)
 
 
-@obligation(id="C04.committed_before[xmax=None,past id]", funcs=VIS_FUNCS, bounds="all u64 ids t < xid, snapshot with xmax = None",
+@obligation(id="C04.committed_before[xmax=None,past id]", also="C18", funcs=VIS_FUNCS, bounds="all u64 ids t < xid, snapshot with xmax = None",
             assume=VIS_ASSUME, **{"assert": "committed_before_matches_world"})
 def c04_cb_none_past(env, ob):
     return run_visibility(env, ob, "is_committed_before_snapshot", COORD,
@@ -604,7 +604,7 @@ def NOT_OWN_DELETE(W):
     return f"(not (and {W['has_del']} (= {W['d']} {W['xid']})))"
 
 
-@obligation(id="C04.valid_for_snapshot[xmax=Some]", funcs=VFS, assume=VIS_ASSUME,
+@obligation(id="C04.valid_for_snapshot[xmax=Some]", also="C18", funcs=VFS, assume=VIS_ASSUME,
             bounds="all u64 creator/deleter ids, deleter optional (deleter != reader: filtered by the caller), any snapshot with xmax = Some(m)",
             **{"assert": "version_visible_iff_creator_visible_and_not_deleted"})
 def c04_vfs_some(env, ob):
@@ -612,7 +612,7 @@ def c04_vfs_some(env, ob):
                           lambda W: conj([W["some"], NOT_OWN_DELETE(W)]), spec_valid_for_snapshot)
 
 
-@obligation(id="C04.valid_for_snapshot[xmax=None,no future id]", funcs=VFS, assume=VIS_ASSUME,
+@obligation(id="C04.valid_for_snapshot[xmax=None,no future id]", also="C18", funcs=VFS, assume=VIS_ASSUME,
             bounds="all creator/deleter ids <= xid, snapshot with xmax = None",
             **{"assert": "version_visible_iff_creator_visible_and_not_deleted"})
 def c04_vfs_none_past(env, ob):
@@ -1047,6 +1047,44 @@ def c18_delta_step(env, ob):
     if chk[0]["verdict"] == "sat":
         return result(ob, "violated", failed=["older_version_wrongly_stamped"], cex={"what": "after one delta step the returned layout's xmin/xmax are not (delta.xmin, Some(newer.xmin))"}, **kw)
     return result(ob, "inconclusive", reason=chk[0]["verdict"], **kw)
+
+
+@obligation(id="C18.delta_records_all_null_flags", funcs="Tuple::add_version_with",
+            bounds="every path of add_version_with up to write_delta (loops unrolled once); callees uninterpreted",
+            native="c18_old_version_keeps_nulls")
+def c18_delta_bitmap(env, ob):
+    """Readers switch to the delta's null bitmap for ALL columns when they step back one version, so the delta must be
+    written from the complete set of old values (third component of compute_values), not only from the changed ones."""
+    ctx, f, args, res = explore(env, "storage/tuple.rs", "add_version_with", loop_bound=1)
+
+    def bad(path, rv):
+        if path.panics or rv is None:
+            return None
+        wd = [e for e in path.events if callee_is(e, r"Tuple::write_delta$")]
+        cv = [e for e in path.events if callee_is(e, r"Tuple::compute_values$")]
+        if not wd:
+            return None
+        if not cv or not isinstance(cv[-1]["ret"], Agg) or not cv[-1]["ret"].name:
+            return ("cannot_trace_old_values", None)
+        # the Ok payload of compute_values is a 3-tuple (new, changed, all_old): the third component must reach write_delta
+        base = cv[-1]["ret"].name
+        names = [base]
+        for e2 in path.events:
+            if e2.get("modelled") and e2["args"] and isinstance(e2["args"][0], Agg) and e2["args"][0].name == base and isinstance(e2["ret"], Agg) and e2["ret"].name:
+                names.append(e2["ret"].name)
+        pat = "(" + "|".join(re.escape(n) for n in names) + r")@(Ok|Continue)\.0\.2"
+        derived = []
+        for e2 in path.events:   # follow borrows / derefs of the third component up to write_delta
+            if e2 is wd[-1]:
+                break
+            if any(re.search(pat, d) or any(x in d for x in derived) for d in e2.get("argdesc", [])) and \
+                    re.search(r"(Deref>::deref|::as_slice|::as_ref|Borrow<.*>>::borrow)$", e2["callee"]):
+                derived.append(mirsmt.describe(e2["ret"]).lstrip("&").rstrip("*"))
+        full = any(re.search(pat, d) or any(x and x in d for x in derived) for d in wd[-1]["argdesc"])
+        if not full:
+            return ("delta_null_bitmap_not_built_from_all_old_values", ret_is_ok(rv))
+        return None
+    return trace_obligation(env, ob, ctx, res, bad, "write_delta does not receive the complete old value set", cuts_ok=True)
 
 
 @obligation(id="C13.vacuum_order", funcs="Database::vacuum::{closure#0}",
